@@ -247,7 +247,7 @@ def parseOperandCfg (j : Json) : R OperandCfg := do
   | "register" => return .register (← str j "r") (← optCode j) ((optStr j "decoPre").getD "") ((optStr j "decoPost").getD "")
   | "indirect_register" => do
     let off ← match fldOpt j "offset" with | none => pure none | some o => do pure (some (← parseArgCfg o))
-    return .indReg (← str j "r") (← optCode j) off
+    return .indReg (← str j "r") (← optCode j) off ((optStr j "decoPre").getD "") ((optStr j "decoPost").getD "")
   | "indirect_numeric" => return .indNum (← optCode j) (← parseArgCfg (← fld j "arg"))
   | "deferred_numeric" => return .defNum (← optCode j) (← parseArgCfg (← fld j "arg"))
   | "indexed_register" => return .idxReg (← str j "r") (← optCode j) (← parseIdxList j)
@@ -265,6 +265,7 @@ def parseForm (j : Json) : R Form := do
   | "ind" => return .ind (← parseE (← fld j "e"))
   | "ind2" => return .ind2 (← parseE (← fld j "e"))
   | "curly" => return .curly (← parseE (← fld j "e"))
+  | "indDeco" => return .indDeco ((optStr j "pre").getD "") (← parseE (← fld j "e")) ((optStr j "post").getD "")
   | "deco" => return .deco ((optStr j "pre").getD "") (← str j "r") ((optStr j "post").getD "")
   | _ => throw s!"form {f}"
 
